@@ -19,7 +19,9 @@ VARIABLES l, nv, nchk
 vars == <<l, nv, nchk>>
 
 (* An event takes part only if the formatter accepted the input. *)
-Applicable(e) == (e.ev \in {"fmt", "imp", "off", "unit"} /\ e.outcome = "ok") \/ e.ev \in {"range", "fe", "obs"}
+(* R05 speaks about every fmt event, whatever its outcome *)
+Applicable5(e) == e.ev = "fmt" /\ "R05" \in Rels
+Applicable(e) == Applicable5(e) \/ (e.ev \in {"fmt", "imp", "off", "unit"} /\ e.outcome = "ok") \/ e.ev \in {"range", "fe", "obs"}
 
 Holds(r, e) ==
   CASE r = "R01" -> ~e.oerr /\ R01(e)
@@ -34,6 +36,7 @@ Holds(r, e) ==
     [] r = "R12b" -> R12b(e)
     [] r = "R19" -> R19(e)
     [] r = "R07" -> e.oerr \/ R07(e)
+    [] r = "R05" -> R05(e)
     [] r = "R16" -> R16(e)
     [] r = "R02" -> R02(e)
     [] r = "R13NoPanic" -> R13NoPanic(e)
@@ -43,7 +46,8 @@ Holds(r, e) ==
 
 (* which relations speak about which kind of event *)
 R13s == {"R13NoPanic", "R13Cover", "R13Refuse", "R13Splice"}
-RelsOf(e) == CASE e.ev = "fmt" -> Rels \ ({"R12b", "R19", "R07", "R16", "R02"} \cup R13s)
+RelsOf(e) == CASE e.ev = "fmt" /\ e.outcome # "ok" -> Rels \cap {"R05"}
+               [] e.ev = "fmt" -> Rels \ ({"R12b", "R19", "R07", "R16", "R02"} \cup R13s)
                [] e.ev = "fe" -> Rels \cap {"R16"}
                [] e.ev = "obs" -> Rels \cap {"R02"}
                [] e.ev = "range" -> Rels \cap R13s
